@@ -21,16 +21,17 @@
       URLs, the importer compares keys) and so does the model.  The first look-up of fetchModel under the
       raw URL never hits because no raw URL is a key.
     * Identity of the C++ objects: a model object is named by its [owner] (the origin model, or the
-      library entry under a key); the weak link of an import source is the pair (owner, url) in [links]
-      and is live while the library still holds the key (std::weak_ptr::expired).  All import elements of
-      one model that carry the same URL behave as one import source (see design notes: base path is a
-      function of the owner, so the behaviours coincide).
+      library entry under a key); an ImportSource object by the tag [sid] carried by the entities that share
+      it (one <import> element = one ImportSource); its weak link mModel is the pair (owner, sid) in [links]
+      and is live while the library still holds the key (std::weak_ptr::expired).
     * Parser: a file is [NotXml] (first parser error has rule XML), or [Parsed errs m] — the parser's
       model together with its non-XML errors reduced to the entity they are attached to.  A well-formed
       XML file that is not CellML is [not_cellml] = an empty model with one error attached to the model.
       Only CellML 2.0 files: the non-strict MESSAGE path of fetchModel (1.x transformation) is not modelled.
     * Result type: [Ok] | [Crash] (the code dereferences a null pointer) | [OutOfFuel] (the recursion did
       not end within the fuel: for every fuel = unbounded recursion = stack exhaustion).
+    * [fixes] (fx_pop, fx_nullref) switches the two prepared repairs (fixes/C07-*.diff); the code as it is now is
+      [no_fixes].
     * History vectors are passed by value where the code pops what it pushed (or aborts the whole
       resolution on failure), and are threaded through and returned where the code never pops
       (Units::performTestWithHistory, checkUnitsForCycles). *)
